@@ -15,7 +15,10 @@ argument bit expressions of the callee's shape (any expressions: variables, tupl
 repeated, swapped, results of other calls) and **every** caller environment, the bit expressions
 the call site returns evaluate to the callee's meaning on the values of the actuals, mention only
 symbols of the actuals, and the callee is the same afterwards.  (The translation of the rest of
-the caller is C01's subject.)
+the caller is C01's subject.)  *Well-formed* (`WF`) = closed over the argument bits, distinct argument
+bits, return bits = the names of the last definitions, pairwise distinct; single assignment is NOT
+required: the callee may re-assign locals and its own parameters (`bind_function` compresses with
+one simultaneous replacement per definition since the fix of `C07-compress-sequential`).
 -/
 namespace QV.C07
 open QV QV.Call
@@ -127,24 +130,63 @@ example : (∀ n ∈ (BExp.and [.sym "x", .sym "y"]).syms, n ∈ ["y", "x"]) ∧
 
 /-! ## `bind_function` and the call site -/
 
-/-- meaning of the bound callee: its (compressed, prefixed) expressions evaluate, in any
-environment, to the values the callee's last definitions take when each argument bit `b` has
-the value of `p_b` -/
-theorem bind_sem (q : Quirks) (hq : q.renameSequential = false) (f : LogicFun)
-    (ords : List (List String)) (hwf : WF f) (ρ : Env) :
+/-- meaning of the bound callee, for **every** definition list (no well-formedness: a definition may
+re-bind an earlier name or an argument bit): its (compressed, prefixed) expressions evaluate, in any
+environment, to the values the callee's last definitions take when the list is run sequentially
+with each symbol `b` starting at the value of `p_b` -/
+theorem bind_sem (q : Quirks) (hq : q.renameSequential = false) (hq' : q.compressSequential = false)
+    (f : LogicFun) (ords : List (List String)) (ρ : Env) :
     (bindFunction q ords f).exps.map (fun se => se.2.eval ρ)
       = lastN f.ret.bitvec.length (vals (fun n => ρ (pref f.name n)) f.exps) := by
-  have h := compress_sem ((argBits f).map (pref f.name)) ρ (renamed f.name f.exps) [] [] ρ
+  simp only [bindFunction, renameAll_none q hq]
+  rw [← lastN_map, compress_vals q hq' ρ, compEnv_nil, vals_renamed]
+
+/-- … and when the return bits are the (pairwise distinct) names of the last definitions these are
+the final values of the return bits: the bound expressions are the callee's meaning with `b ↦ p_b` -/
+theorem bind_sem_ret (q : Quirks) (hq : q.renameSequential = false) (hq' : q.compressSequential = false)
+    (f : LogicFun) (ords : List (List String)) (ρ : Env)
+    (hlast : (lastN f.ret.bitvec.length f.exps).map (·.1) = f.ret.bitvec)
+    (hnodup : f.ret.bitvec.Pairwise (· ≠ ·)) :
+    (bindFunction q ords f).exps.map (fun se => se.2.eval ρ)
+      = f.ret.bitvec.map (run (fun n => ρ (pref f.name n)) f.exps) := by
+  rw [bind_sem q hq hq', lastN_vals_eq_run _ _ _ (by rw [hlast]; exact hnodup)]
+  conv => rhs; rw [← hlast]
+  rw [List.map_map]
+  rfl
+
+/-- single assignment implies the weaker well-formedness the theorems now need -/
+theorem wf_of_strict (f : LogicFun) (h : WFStrict f) : WF f where
+  closed := Ok_closed _ _ _ h.ok
+  argsNodup := h.argsNodup
+  retLast := h.retLast
+  retNodup := by
+    rw [← h.retLast]
+    have hall := Ok_names_nodup _ _ _ h.ok
+    unfold lastN
+    split
+    · exact hall
+    · rw [List.map_drop]; exact List.Pairwise.sublist (List.drop_sublist _ _) hall
+  retNonempty := h.retNonempty
+
+/-- the compression as it was (`e.subs(d_exp)`, flag `compressSequential` on) has the same meaning
+on single-assignment callees: the defect needed a callee that re-binds a name -/
+theorem bind_sem_sequential (q : Quirks) (hq : q.renameSequential = false)
+    (hq' : q.compressSequential = true) (f : LogicFun) (ords : List (List String)) (hwf : WFStrict f)
+    (ρ : Env) :
+    (bindFunction q ords f).exps.map (fun se => se.2.eval ρ)
+      = lastN f.ret.bitvec.length (vals (fun n => ρ (pref f.name n)) f.exps) := by
+  have h := compress_seq_sem q hq' ((argBits f).map (pref f.name)) ρ (renamed f.name f.exps) [] [] ρ
     (Ok_renamed f.name _ _ _ hwf.ok) (by simp) (by simp) (by simp) (fun _ _ => rfl) (by simp)
   simp only [bindFunction, renameAll_none q hq]
   rw [← lastN_map, h.1, vals_renamed]
 
-/-- **function composition**: for every well-formed callee, every list of actual argument
-expressions of its shape and every caller environment, the call succeeds and its result bits
-evaluate to the callee's meaning on the values of the actuals; they mention only symbols of
-the actuals -/
+/-- **function composition**: for every well-formed callee (closed over its argument bits; it may
+re-assign locals and its own parameters), every list of actual argument expressions of its shape and
+every caller environment, the call succeeds and its result bits evaluate to the callee's meaning on
+the values of the actuals; they mention only symbols of the actuals -/
 theorem call_composition (q : Quirks) (hq1 : q.argIndexFromName = false)
     (hq2 : q.subsSequential = false) (hq3 : q.renameSequential = false)
+    (hq4 : q.compressSequential = false)
     (f : LogicFun) (ords : List (List String)) (actuals : List Actual) (ρ : Env)
     (hwf : WF f) (hsh : Shaped f.args actuals) :
     ∃ rs, callSite q (bindFunction q ords f) actuals = .ok rs ∧
@@ -155,16 +197,15 @@ theorem call_composition (q : Quirks) (hq1 : q.argIndexFromName = false)
   · -- values
     let pairs := ((argBits f).map (pref f.name)).zip (actualBits actuals)
     let ρ1 := compEnv (lookup pairs) ρ
-    have hc := compress_sem ((argBits f).map (pref f.name)) ρ1 (renamed f.name f.exps) [] [] ρ1
-      (Ok_renamed f.name _ _ _ hwf.ok) (by simp) (by simp) (by simp) (fun _ _ => rfl) (by simp)
     rw [List.map_map]
     have h1 : ((fun x : BExp => x.eval ρ) ∘ fun se : String × BExp => simSubst pairs se.2)
         = fun se => se.2.eval ρ1 := by
       funext se; simp [eval_simSubst, ρ1]
-    rw [h1, ← lastN_map, hc.1, vals_renamed]
-    rw [vals_congr (argBits f) f.exps [] _ (zipEnv (argBits f) ((actualBits actuals).map (·.eval ρ))) hwf.ok]
+    rw [h1, ← lastN_map, compress_vals q hq4 ρ1, compEnv_nil, vals_renamed]
+    rw [vals_congr (argBits f) f.exps [] _ (zipEnv (argBits f) ((actualBits actuals).map (·.eval ρ)))
+      hwf.closed]
     · unfold LogicFun.sem
-      rw [vals_eq_run (argBits f) f.exps [] _ hwf.ok, lastN_map]
+      rw [lastN_vals_eq_run _ _ _ (by rw [hwf.retLast]; exact hwf.retNodup)]
       conv => rhs; rw [← hwf.retLast]
       rw [List.map_map]
       rfl
@@ -177,9 +218,8 @@ theorem call_composition (q : Quirks) (hq1 : q.argIndexFromName = false)
   · -- free symbols
     intro r hr n hn
     obtain ⟨se, hse, rfl⟩ := List.mem_map.mp hr
-    have hc := compress_sem ((argBits f).map (pref f.name)) ρ (renamed f.name f.exps) [] [] ρ
-      (Ok_renamed f.name _ _ _ hwf.ok) (by simp) (by simp) (by simp) (fun _ _ => rfl) (by simp)
-    have hA := hc.2.1 se (mem_lastN _ _ _ hse)
+    have hA := compress_syms q hq4 ((argBits f).map (pref f.name)) (renamed f.name f.exps) [] []
+      (Closed_renamed f.name _ _ _ hwf.closed) (by simp) (by simp) se (mem_lastN _ _ _ hse)
     obtain ⟨m, hm, hh⟩ := syms_subst _ se.2 n hn
     obtain ⟨a, ha, hl⟩ := lookup_zip_some _ _ hlen m (hA m hm)
     rcases hh with ⟨hnone, _⟩ | ⟨r, hsome, hr⟩
@@ -198,7 +238,7 @@ theorem C07_full : C07_statement Quirks.none := by
   intro f ords actuals ρ hwf hsh
   refine ⟨?_, fun name => callee_unchanged _ rfl f name⟩
   intro rs hrs
-  obtain ⟨rs', h1, h2, h3⟩ := call_composition Quirks.none rfl rfl rfl f ords actuals ρ hwf hsh
+  obtain ⟨rs', h1, h2, h3⟩ := call_composition Quirks.none rfl rfl rfl rfl f ords actuals ρ hwf hsh
   rw [h1] at hrs
   cases hrs
   exact ⟨h2, h3⟩
@@ -211,7 +251,23 @@ def exCallee : LogicFun :=
              ("_ret.1", .and [.sym "x.1", .sym "t"])] }
 
 example : WF exCallee :=
-  ⟨by simp [Ok, exCallee, argBits, BExp.syms, symsList], by decide, by decide, by decide⟩
+  ⟨by simp [Closed, exCallee, argBits, BExp.syms, symsList], by decide, by decide, by decide, by decide⟩
+
+/-- a callee that re-assigns its own parameters (`a = a ^ b; b = a and b; return a or b`, the definition
+list qlasskit's translator produces for it): well-formed in the sense the theorems need, not
+single-assignment -/
+def rpCallee : LogicFun :=
+  { name := "rp", args := [⟨"a", ["a"]⟩, ⟨"b", ["b"]⟩], ret := ⟨"_ret", ["_ret"]⟩
+    exps := [("__a", .xor [.sym "a", .sym "b"]), ("a", .sym "__a"),
+             ("__b", .and [.sym "a", .sym "b"]), ("b", .sym "__b"),
+             ("_ret", .or [.sym "a", .sym "b"])] }
+
+example : WF rpCallee :=
+  ⟨by simp [Closed, rpCallee, argBits, BExp.syms, symsList], by decide, by decide, by decide, by decide⟩
+
+example : ¬ WFStrict rpCallee := fun h => by
+  have := h.ok
+  simp [Ok, rpCallee, argBits] at this
 
 example : Shaped exCallee.args [⟨true, false, [.sym "c.1", .sym "c.1"]⟩, ⟨false, false, [.not (.sym "c.0")]⟩] := by
   simp [Shaped, exCallee]
@@ -231,11 +287,11 @@ def gCallee : LogicFun :=
     exps := [("_ret", .and [.sym "x", .not (.sym "g_x")])] }
 
 example : WF incCallee :=
-  ⟨by simp [Ok, incCallee, argBits, BExp.syms, symsList], by decide, by decide, by decide⟩
+  ⟨by simp [Closed, incCallee, argBits, BExp.syms, symsList], by decide, by decide, by decide, by decide⟩
 example : WF andCallee :=
-  ⟨by simp [Ok, andCallee, argBits, BExp.syms, symsList], by decide, by decide, by decide⟩
+  ⟨by simp [Closed, andCallee, argBits, BExp.syms, symsList], by decide, by decide, by decide, by decide⟩
 example : WF gCallee :=
-  ⟨by simp [Ok, gCallee, argBits, BExp.syms, symsList], by decide, by decide, by decide⟩
+  ⟨by simp [Closed, gCallee, argBits, BExp.syms, symsList], by decide, by decide, by decide, by decide⟩
 
 /-- `inc(t[1])` with `t : Tuple[Qint2, Qint2]`: the index recovered from the name `t.1.0` is
 `1.0`, the key `inc_x.1.0` is no formal bit, the formal bits stay in the caller's expressions -/
@@ -265,6 +321,20 @@ theorem renameSequential_witness :
     callVals { renameSequential := true } gCallee [["x", "g_x"]] acts ρ
         ≠ some (gCallee.sem ((actualBits acts).map (·.eval ρ)))
       ∧ callVals Quirks.none gCallee [["x", "g_x"]] acts ρ = some (gCallee.sem ((actualBits acts).map (·.eval ρ))) := by
+  decide
+
+/-- `rp(p, q)` for the inline callee `a = a ^ b; b = a and b; return a or b`: at `b = __b` the old code
+computed `rp___b.subs({rp___a: rp_a ^ rp_b, rp___b: (rp_a ^ rp_b) & rp_b, rp_a: rp_a ^ rp_b})` one pair after
+the other in name order, so `rp_a` was substituted again inside the value just put in for `rp___b`
+(`((rp_a ^ rp_b) ^ rp_b) & rp_b` = `rp_a & rp_b`); the caller returned `p` instead of `p ^ q`: `True` on
+`p = q = True`, the callee gives `False`.  One simultaneous replacement (`xreplace`, the repaired code) is
+right -/
+theorem compressSequential_witness :
+    let acts : List Actual := [⟨false, false, [.sym "p"]⟩, ⟨false, false, [.sym "q"]⟩]
+    let ρ : Env := envOf [("p", true), ("q", true)]
+    callVals { compressSequential := true } rpCallee [] acts ρ
+        ≠ some (rpCallee.sem ((actualBits acts).map (·.eval ρ)))
+      ∧ callVals Quirks.none rpCallee [] acts ρ = some (rpCallee.sem ((actualBits acts).map (·.eval ρ))) := by
   decide
 
 /-- `oraclize` of a callee that is itself called `oracle` renames the callee object -/
